@@ -123,7 +123,7 @@ Definition x_vop3_common (op : Z) : option vdesc :=
   | 471 => Some (d3 (fun a b c => val (med3s (s32 a) (s32 b) (s32 c))))
   | 511 => Some (d3 (fun a b c => val (u32 (u32 a + u32 b + u32 c))))
   | 451 => Some (d3 (fun a b c => val (u32 ((u32 a mod 16777216) * (u32 b mod 16777216) + u32 c))))
-  | 457 => Some (d3 (fun a b c => val (bfe_i32_impl a (Z.lor (Z.land (u32 b) 31) (Z.shiftl (Z.land (u32 c) 31) 16)))))
+  | 457 => Some (d3 (fun a b c => val (u32 (bfe_core (s32 a) (Z.land (u32 b) 31) (Z.land (u32 c) 31)))))
   | 472 => Some (d3 (fun a b c => val (med3s (u32 a) (u32 b) (u32 c))))
   | 488 => Some (mkV 3 0 0 2 2 CNone MNone (fun a b c _ => val (u64 (u32 a * u32 b + c))))
   | 645 => Some (d2 (fun a b => val (u64 (a * b))))
@@ -143,7 +143,7 @@ Definition g_vop2 (op : Z) : option vdesc :=
   | 13 => Some (d2 (fun a b => val (if s32 a >? s32 b then s32 a else s32 b)))
   | 14 => Some (d2 (fun a b => val (if u32 a <? u32 b then u32 a else u32 b)))
   | 15 => Some (d2 (fun a b => val (if u32 a >=? u32 b then u32 a else u32 b)))
-  | 16 => Some (d2 (fun a b => val (Z.shiftr b (Z.land a 31))))
+  | 16 => Some (d2 (fun a b => val (Z.shiftr (u32 b) (Z.land a 31))))
   | 17 => Some (d2 (fun a b => val (Z.shiftr (s32 b) (Z.land (u32 a) 31))))
   | 18 => Some (d2 (fun a b => val (u32 (Z.shiftl (u32 b) (Z.land (u32 a) 31)))))
   | 19 => Some (d2 (fun a b => val (Z.land (u32 a) (u32 b))))
